@@ -39,7 +39,11 @@ def obligations(tier):
            bounds="5 call sites; allow_custom symbolic; version None or any str <= 3"),
         CH("forward_observable_property", H, "fwd_observable_property", t, functions=F[13:14], stubs=[REC], bounds="allow_custom symbolic, both spec versions"),
         CH("entry_points_same_class", H, "entry_points", t, mode="E1s", functions=F, stubs=[FSS],
-           bounds="6 documents (2.0/2.1 SDO, SCO with/without id, 2.0/2.1 bundle) x (no version, 2.0, 2.1) x (parse, store.add, store ctor, FS sink+source)"),
+           bounds="8 documents (2.0/2.1 SDO, SCO with/without id, 2.0/2.1 bundles, bundles whose members carry no version / a 2.1-only id) x (no version, 2.0, 2.1) x "
+                  "(parse, store.add, store ctor, FS sink+source, MemorySource.load_from_file, MemoryStore.load_from_file)"),
+        CH("library_output_recognised", H, "produced_recognised", t, mode="E1s", functions=["stix2.utils.detect_spec_version", "stix2.parsing.parse", "stix2.parsing.dict_to_stix2"],
+           bounds="16 objects the library builds (empty and non-empty bundles of both versions, mixed bundle, SDO/SRO/SCO, TLP and statement markings, language "
+                  "content, 2.0 observed-data) x (compact text, dict, pretty text with defaults): detected version, class and re-serialization"),
         CH("relaxed_only_ids_refused", H, "strictness", t, mode="E1s", functions=F[15:] + F[:1], stubs=[FSS],
            bounds="6 malformed identifiers x (no version, 2.0, 2.1) x 4 entry points"),
         JOB("strict_id_language", "props.j_ids", "job_id_language", 300, engine="re2z3", functions=F[15:],
